@@ -170,4 +170,35 @@ theorem invoke_spec {cfg : Cfg} {tx : Tx} {m : Meter} {s s' : St} {is : List Inc
         simp only [Coins.amountOf_sub] at hu'
         rw [htot d]; omega
 
+/-! ### the base-fee deduction never answers "insufficient fee" -/
+
+theorem useGranted_err_ne_fee {a : Allow} {fee : Coins} {e : Err} (h : useGrantedFees a fee = .error e) : e ≠ .fee := by
+  unfold useGrantedFees at h
+  split at h
+  · cases h; decide
+  · cases h
+  · dsimp only at h
+    split_ifs at h <;> cases h <;> decide
+
+theorem checkDeduct_err_ne_fee {cfg : Cfg} {tx : Tx} {s : St} {e : Err}
+    (h : checkDeductBaseFee cfg tx s = .error e) : e ≠ .fee := by
+  unfold checkDeductBaseFee at h
+  dsimp only at h
+  split at h
+  · cases h; decide
+  · split at h
+    · rename_i e' hg
+      cases h
+      unfold getFeePayerUsingFeeGrant at hg
+      split at hg
+      · cases hg
+      · split at hg
+        · rename_i e'' hu; cases hg; exact useGranted_err_ne_fee hu
+        · cases hg
+    · split_ifs at h
+      · cases h; decide
+      · split at h
+        · cases h; decide
+        · cases h
+
 end PvProofs.TxfeeL
